@@ -87,3 +87,191 @@ Proof.
       rewrite map_id. unfold gone. apply filter_In. split; [exact X | rewrite N'; reflexivity]. }
     unfold use_of. rewrite N, N'. reflexivity.
 Qed.
+
+(* ---- Part 2: one monitored step ------------------------------------------------------------- *)
+Lemma limit_wf_ok : forall l, limit_wf l = true -> lim_ok l.
+Proof.
+  intros l H. unfold limit_wf in H. repeat (apply andb_true_iff in H; destruct H as [H ?]).
+  repeat match goal with X : (_ <=? _) = true |- _ => apply Z.leb_le in X end.
+  unfold lim_ok. repeat split; lia.
+Qed.
+
+Lemma find_over_in : forall l k i lim, find_over l k i = Some lim -> exists k' i', In (k', i', lim) l.
+Proof.
+  induction l as [|[[k0 i0] l0] r IH]; intros k i lim H; cbn in H; [discriminate|].
+  destruct ((k0 =? k) && Nat.eqb i0 i).
+  - inversion H; subst. exists k0, i0. left. reflexivity.
+  - destruct (IH k i lim H) as (k' & i' & X). exists k', i'. right. exact X.
+Qed.
+
+Lemma config_wf_ok : forall c, config_wf c = true -> cfg_ok c.
+Proof.
+  intros c H t. unfold config_wf in H. apply andb_true_iff in H. destruct H as [H1 H2].
+  cbn [forallb] in H1. repeat (apply andb_true_iff in H1; destruct H1 as [? H1]).
+  rewrite forallb_forall in H2.
+  assert (Hov : forall kind id dflt, limit_wf dflt = true ->
+            lim_ok (match find_over (lim_over c) kind id with Some l => l | None => dflt end)).
+  { intros kind id dflt Hd. destruct (find_over (lim_over c) kind id) as [l|] eqn:F; [|apply limit_wf_ok, Hd].
+    apply find_over_in in F. destruct F as (k' & i' & F). apply limit_wf_ok. apply (H2 _ F). }
+  destruct t; cbn [limit_of]; try (apply limit_wf_ok; assumption); apply Hov; assumption.
+Qed.
+
+Lemma first_some_none : forall A B (f : A -> option B) l, (forall x, In x l -> f x = None) -> first_some f l = None.
+Proof.
+  induction l as [|x r IH]; intros H; [reflexivity|]. cbn. rewrite (H x (or_introl eq_refl)).
+  apply IH. intros y Hy. apply H. right. exact Hy.
+Qed.
+
+Lemma usage_mismatch_none : forall a m l, (forall t, ostat m t = usage_A a t) -> usage_mismatch a m l = None.
+Proof.
+  induction l as [|t r IH]; intros H; [reflexivity|]. cbn. rewrite (H t).
+  replace (stat_eqb (usage_A a t) (usage_A a t)) with true by (symmetry; apply stat_eqb_eq; reflexivity).
+  apply IH, H.
+Qed.
+
+Lemma nonneg_bool : forall u, nonneg u -> stat_nonneg u = true.
+Proof.
+  intros u (H1 & H2 & H3 & H4 & H5 & H6). unfold stat_nonneg.
+  repeat (apply andb_true_iff; split); apply Z.leb_le; assumption.
+Qed.
+
+Lemma fits_bool : forall l u, fits l u -> within l u = true.
+Proof.
+  intros l u (H1 & H2 & H3 & H4 & H5 & H6 & H7 & H8). unfold within.
+  repeat (apply andb_true_iff; split); apply Z.leb_le; assumption.
+Qed.
+
+Lemma fits_zero : forall l, lim_ok l -> fits l stat0.
+Proof. intros l (H1 & H2 & H3 & H4 & H5 & H6 & H7 & H8). unfold fits; cbn. repeat split; lia. Qed.
+
+Lemma within_ok : forall c m a t, cfg_ok c -> Inv c m a -> within (a_limit c a t) (use_of m t) = true.
+Proof.
+  intros c m a t LO I. apply fits_bool. unfold use_of. destruct (get m t) as [sc|] eqn:G.
+  2:{ apply fits_zero. unfold a_limit. destruct t; apply LO. }
+  destruct (is_handle t) eqn:Hh.
+  - destruct (hget (holders a) t) as [h|] eqn:Gh.
+    + destruct (I_handle c m a I t h Gh Hh) as (sc0 & G0 & _ & _ & _ & Pl). rewrite G in G0. inversion G0; subst sc0.
+      rewrite <- Pl. apply (I_good c m a I t sc G).
+    + destruct (I_garbage c m a I t sc G Hh Gh) as [_ Z]. rewrite Z. apply fits_zero. unfold a_limit. destruct t; apply LO.
+  - destruct (I_static c m a I t sc G Hh) as (_ & _ & _ & Pl).
+    assert (E : a_limit c a t = limit_of c t) by (destruct t; try discriminate; reflexivity).
+    rewrite E, <- Pl. apply (I_good c m a I t sc G).
+Qed.
+
+(* if the abstract successor is the single (or first) candidate and the
+   invariant holds after the step, the core monitor accepts the step *)
+Lemma mon_step_accepts : forall c a a' m m' o x rest,
+  cfg_ok c -> astep c a o (o_cls x) (o_aflag x) = a' :: rest ->
+  m' = apply_delta m (o_delta x) ->
+  (exists sm, Inv c sm a' /\ forall t, ostat m' t = use_of sm t) ->
+  mon_step_gen false c a m o x = inl (a', m').
+Proof.
+  intros c a a' m m' o x rest LO Ha Em (sm & I & L). unfold mon_step_gen. rewrite Ha, <- Em.
+  assert (Hu : forall t, ostat m' t = usage_A a' t) by (intros t; rewrite L; apply (I_num c sm a' I)).
+  cbn [first_some]. rewrite (usage_mismatch_none a' m' _ Hu).
+  unfold check_after. rewrite (usage_mismatch_none a' m' _ Hu).
+  rewrite first_some_none.
+  2:{ intros t _. rewrite L, (nonneg_bool _ (use_nonneg sm t (I_good c sm a' I))). reflexivity. }
+  rewrite first_some_none.
+  2:{ intros t _. rewrite L, (within_ok c sm a' t LO I). reflexivity. }
+  reflexivity.
+Qed.
+
+(* ---- Part 3: the whole trace ---------------------------------------------------------------- *)
+Definition core_shape (o : op) : bool :=
+  match o with
+  | OReserve t _ _ | ORelease t _ | OBeginSpan t _ => view_target t
+  | ODone t => handle_target t
+  | OOpenConn _ _ _ _ | OOpenStream _ _ _ => true
+  | _ => false
+  end.
+
+Lemma oget_In : forall m x e, oget m x = Some e -> exists y, In (y, e) m.
+Proof.
+  induction m as [|[y e0] r IH]; intros x e G; cbn in G; [discriminate|].
+  destruct (sid_eqb y x); [inversion G; subst; exists y; left; reflexivity|].
+  destruct (IH x e G) as (z & Hz). exists z. right. exact Hz.
+Qed.
+
+Lemma novf_of_bool : forall st m o b, (forall t, ostat m t = use_of (scopes st) t) ->
+  no_overflow m o = true -> bump m o = b -> 0 <= b < two63 -> novf (scopes st) b.
+Proof.
+  intros st m o b L H Eb Hb x. rewrite <- L. unfold no_overflow in H. rewrite forallb_forall in H.
+  unfold ostat. destruct (oget m x) as [e|] eqn:G.
+  - destruct (oget_In m x e G) as (y & Hy). specialize (H (y, e) Hy). cbn [snd] in H.
+    apply Z.ltb_lt in H. rewrite Eb in H. unfold two63, max_int64 in *. lia.
+  - cbn. unfold two63, max_int64 in *. lia.
+Qed.
+
+Lemma caller_wf : forall st a m o, (forall t, ostat m t = use_of (scopes st) t) ->
+  core_shape o = true -> caller_ok a o = true -> no_overflow m o = true -> wf_op st a o.
+Proof.
+  intros st a m o L Sh C N. destruct o; cbn [core_shape caller_ok wf_op] in *; try discriminate.
+  - unfold fresh in C. destruct (hget (holders a) (Conn i)); [discriminate | reflexivity].
+  - unfold fresh in C. destruct (hget (holders a) (Stream j)); [discriminate | reflexivity].
+  - repeat (apply andb_true_iff in C; destruct C as [C ?]).
+    apply Z.leb_le in C. apply Z.leb_le in H1. apply Z.ltb_lt in H0.
+    split; [lia|]. split; [unfold two63, max_int64 in *; lia|]. split; [exact Sh|]. split; [assumption|].
+    apply (novf_of_bool st m (OReserve t sz prio) (Z.max sz 0) L N eq_refl). unfold two63 in *. lia.
+  - repeat (apply andb_true_iff in C; destruct C as [C ?]). apply Z.leb_le in C.
+    split; [exact C|]. split; [exact Sh|]. split; [assumption|].
+    apply orb_true_iff in H. destruct H as [H|H]; [left; exact H | right; apply Z.leb_le, H].
+  - apply andb_true_iff in C. destruct C as [C1 C2]. split; [exact Sh|]. split; [exact C1|].
+    unfold fresh in C2. destruct (hget (holders a) (Span k)); [discriminate | reflexivity].
+  - split; [destruct t; try discriminate; reflexivity|].
+    unfold has_holder in C. destruct t; try discriminate; destruct (hget (holders a) _); discriminate.
+Qed.
+
+Lemma astep_core_head : forall c st a o, cfg_ok c -> Inv c (scopes st) a -> wf_op st a o ->
+  let '(st', cls) := step c st o in
+  astep c a o cls (o_aflag (model_obs st st' o cls)) = [anext c st a o].
+Proof.
+  intros c st a o LO I Wf. unfold anext. destruct o; cbn [step wf_op] in *; try contradiction.
+  - pose proof (open_conn_inv c st a i inb usefd ep LO I Wf) as H.
+    destruct (open_conn c st i inb usefd ep) as [st' cls]. cbv zeta in H. destruct H as [P _].
+    unfold model_obs. cbn [o_aflag astep]. destruct (cls =? 0) eqn:C; [|reflexivity]. apply Z.eqb_eq in C.
+    set (al := match nget (conns st') i with Some ci => ci_allow ci | None => false end) in *.
+    assert (Eal : zbool (match nget (conns st') i with Some ci => b2z (ci_allow ci) | None => 0 end) = al).
+    { unfold al. destruct (nget (conns st') i); [apply zbool_b2z | reflexivity]. }
+    rewrite Eal. destruct al; [rewrite (P C eq_refl)|]; reflexivity.
+  - destruct (open_stream c st j q inb) as [st' cls]. cbn [astep]. destruct (cls =? 0); reflexivity.
+  - destruct (reserve_mem c st t sz prio) as [st' cls]. cbn [astep]. destruct (cls =? 0); reflexivity.
+  - destruct (release_mem c st t sz) as [st' cls]. cbn [astep]. destruct (a_dead a t); reflexivity.
+  - destruct (begin_span c st t k) as [st' cls]. cbn [astep]. destruct (cls =? 0); reflexivity.
+  - destruct (done_op c st t) as [st' cls]. cbn [astep]. destruct t; try reflexivity.
+    destruct (nget (aconns (kill a (Conn i))) i); reflexivity.
+Qed.
+
+Theorem monitor_accepts_from : forall c ops st a m i,
+  cfg_ok c -> Inv c (scopes st) a -> (forall t, ostat m t = use_of (scopes st) t) ->
+  forallb core_shape ops = true ->
+  callers_run c a m i (model_trace c st ops) = None ->
+  mon_run_gen false c a m i (model_trace c st ops) = [].
+Proof.
+  intros c ops. induction ops as [|o r IH]; intros st a m i LO I L Sh Cr; [reflexivity|].
+  cbn [forallb] in Sh. apply andb_true_iff in Sh. destruct Sh as [Sh1 Sh2].
+  cbn [model_trace] in *. pose proof (astep_core_head c st a o LO I) as Hd.
+  pose proof (step_inv c st a o LO I) as Hi.
+  destruct (step c st o) as [st' cls] eqn:Es. cbn [fst] in Hi.
+  cbn [callers_run mon_run_gen] in *.
+  destruct (caller_ok a o && no_overflow m o) eqn:C; [|discriminate].
+  apply andb_true_iff in C. destruct C as [C1 C2].
+  pose proof (caller_wf st a m o L Sh1 C1 C2) as Wf. specialize (Hd Wf). specialize (Hi Wf).
+  set (x := model_obs st st' o cls) in *.
+  set (m' := apply_delta m (o_delta x)).
+  assert (L' : forall t, ostat m' t = use_of (scopes st') t) by (apply obs_follows, L).
+  assert (Ecls : o_cls x = cls) by reflexivity.
+  pose proof (mon_step_accepts c a (anext c st a o) m m' o x [] LO) as Ms.
+  rewrite Ecls in Ms. specialize (Ms Hd eq_refl (ex_intro _ (scopes st') (conj Hi L'))).
+  rewrite Ms in *. apply (IH st' _ m' (i + 1) LO Hi L' Sh2 Cr).
+Qed.
+
+Theorem monitor_accepts_core : forall c ops,
+  config_wf c = true -> forallb core_shape ops = true ->
+  callers_run c astate0 [] 0 (model_trace c (init_state c) ops) = None ->
+  mon_run_gen false c astate0 [] 0 (model_trace c (init_state c) ops) = [].
+Proof.
+  intros c ops W Sh Cr. pose proof (config_wf_ok c W) as LO.
+  apply (monitor_accepts_from c ops (init_state c) astate0 [] 0 LO (init_inv c LO)); try assumption.
+  intros t. cbn. unfold use_of. destruct t; reflexivity.
+Qed.
